@@ -28,7 +28,18 @@ PLAN3 = {
  'W3E-m1': ('E', ['C02','C01']), 'W3E-m2': ('E', ['C02']),
  'W3F-m1': ('F', ['C08']), 'W3F-m2': ('F', ['C08']),
 }
+PLAN4 = {
+ 'W4A-m1': ('A', ['C06']), 'W4A-m2': ('A', ['C06']),
+ 'W4B-m1': ('B', ['C20']), 'W4B-m2': ('B', ['C20']),
+ 'W4C-m1': ('C', ['C04','C06']), 'W4C-m2': ('C', ['C04','C06']),
+ 'W4D-m1': ('D', ['C03']), 'W4D-m2': ('D', ['C03','C06']),
+ 'W4E-m1': ('E', ['C07','C06']), 'W4E-m2': ('E', ['C07']),
+ 'W4F-m1': ('F', ['C12']), 'W4F-m2': ('F', ['C12','C06']),
+}
 SRC = {}
+for k, (d, checks) in PLAN4.items():
+    PLAN[k] = checks
+    SRC[k] = f'/tmp/mut4-{d}/out/{k.split("-")[1]}'
 for k, (d, checks) in PLAN3.items():
     PLAN[k] = checks
     SRC[k] = f'/tmp/mut3-{d}/out/{k.split("-")[1]}'
